@@ -14,11 +14,14 @@ GEN = ['Chars', 'MolQuery']
 OBLIGATIONS = ['PGA.Scheme.' + t for t in [
     'C04_cnt_union', 'C04_centres_union', 'C04_groupCount_union', 'C04_distinctSets_union',
     'C04_remap_additive', 'C04_descriptors_union']] + ['PGA.C04.' + t for t in [
-    'C04_load_connected', 'C04_embeds_union', 'C04_aromatize_union', 'C04_decompose_union']]
+    'C04_load_connected', 'C04_embeds_union', 'C04_aromatize_union', 'C04_decompose_union', 'C04_decompose_mixture']]
 RULE = ('cases = (scheme, A, B[, C]): all ordered pairs (incl. self-pairs) from a pool of fixed and grown molecules per scheme, '
         'some triples, pairs with an out-of-vocabulary component (failure propagation), for the nine shipped schemes. '
         'distinct = distinct (scheme, A, B); non-trivial = both components have >= 2 heavy atoms or one fails.')
-ASSUMPTIONS = ['A-graph: RDKit numbers the atoms of "A.B" as those of A followed by those of B and reports the rings of A then the shifted rings of B (validated on every case)']
+ASSUMPTIONS = ['A-graph for mixtures: RDKit\'s explicit-H graph of "A.B" is the disjoint union of the graphs of A and B renumbered by an explicit '
+               'permutation (heavy atoms of all parts first, then the hydrogens part by part): atoms identical, bonds identical as a multiset '
+               '(listed in another order), rings in the same order — hypothesis MolIso of C04_decompose_mixture, measured on every mixture of the '
+               'full tie (lib_scheme.mixture_is_union); the exceptions (bridged bicycles whose symmetrised extra ring RDKit lists last) are counted']
 TRUSTED = []
 
 
@@ -54,6 +57,10 @@ def run(ctx):
     # table observation behind C04_decompose_union: no pattern of any shipped scheme carries a molecule-level prefix (nor `*`)
     ctx.assumption('shipped_schemes_without_molecule_level_prefix_and_star', bool(full.flags) and all(f['nomolprefix'] and f['nostar'] for f in full.flags),
                    '%d scheme transmissions, all read by the model reader: noMolPrefix and noStar hold for each' % len(full.flags))
+    yes, no = ctx.stats.get('mixture_is_renumbered_union_yes', 0), ctx.stats.get('mixture_is_renumbered_union_NO', 0)
+    ctx.assumption('mixture_graph_is_renumbered_union_of_component_graphs', yes > 0 and no <= 0.05 * (yes + no),
+                   '%d of %d mixtures: atoms identical, bonds identical as a multiset, rings in the same order under the explicit H-last '
+                   'permutation; %d exceptions (ring list of a bridged bicycle reordered)' % (yes, yes + no, no))
     replies = ctx.model([b[0] for b in batch])
     if replies is not None:
         for (req, impl, where), rep in zip(batch, replies):
@@ -70,6 +77,16 @@ def run(ctx):
 def check_pair(ctx, name, lib, parts, results, batch, full=None):
     mix = '.'.join(parts)
     r = S.impl_descriptors(lib, mix)
+    if full is not None and not r.get('err', '').startswith('internal') and (full.max_cases is None or full.n < full.max_cases):
+        u = S.mixture_is_union(parts)
+        if u is not None:
+            ctx.count('mixture_is_renumbered_union_%s' % ('yes' if u[0] else 'NO'))
+            if u[0]:
+                ctx.count('mixture_' + u[1].replace(' ', '_'))
+            else:
+                ex = ctx.extra.setdefault('coverage', {}).setdefault('mixture_not_union_examples', [])
+                if len(ex) < 6:
+                    ex.append([mix, u[1]])
     if full is not None and not r.get('err', '').startswith('internal'):
         # second tie: the end-to-end model on the mixture's raw graph
         full.add(lib, mix, r, {'scheme': name, 'smiles': mix}, S.impl_atoms(lib) if 'ok' in r else None,
